@@ -495,7 +495,7 @@ class Fxp():
             if self.scaled:
                 self.set_val((_old_val / 2**_old_n_frac) * self.scale + self.bias)
             else:
-                self.set_val(utils.shift_raw(_old_val, self.n_frac - _old_n_frac, self.config.overflow == 'wrap'), raw=True)
+                self.set_val(utils.shift_raw(_old_val, self.n_frac - _old_n_frac), raw=True)
         else:
             self.set_val(_old_val, raw=True)
 
@@ -677,7 +677,7 @@ class Fxp():
                 self.status['inaccuracy'] = True
 
             # force return raw value for better precision
-            val = utils.shift_raw(val.val, self.n_frac - val.n_frac, self.config.overflow == 'wrap')
+            val = utils.shift_raw(val.val, self.n_frac - val.n_frac)
             raw = True
 
             # the scaled raw value keeps its own type: a cast to the value type of the source
@@ -1122,7 +1122,7 @@ class Fxp():
         """
         
         if isinstance(x, Fxp):
-            new_val_raw = utils.shift_raw(x.val, self.n_frac - x.n_frac, self.config.overflow == 'wrap')
+            new_val_raw = utils.shift_raw(x.val, self.n_frac - x.n_frac)
             self.set_val(new_val_raw, raw=True, index=index)
         else:
             self.set_val(x, index=index)
@@ -1693,7 +1693,7 @@ class Fxp():
 
     def like(self, x):
         if isinstance(x, self.__class__):
-            new_raw_val = utils.shift_raw(self.val, x.n_frac - self.n_frac, x.config.overflow == 'wrap')
+            new_raw_val = utils.shift_raw(self.val, x.n_frac - self.n_frac)
             return  Fxp(like=x).set_val(new_raw_val, raw=True)
         else:
             raise ValueError('`x` should be a Fxp object!')
